@@ -5,5 +5,16 @@ import (
 	_ "polycheck/props/c01"
 	_ "polycheck/props/c02"
 	_ "polycheck/props/c03"
+	_ "polycheck/props/c04"
+	_ "polycheck/props/c05"
+	_ "polycheck/props/c06"
+	_ "polycheck/props/c07"
+	_ "polycheck/props/c08"
+	_ "polycheck/props/c10"
+	_ "polycheck/props/c11"
+	_ "polycheck/props/c12"
+	_ "polycheck/props/c13"
+	_ "polycheck/props/c14"
+	_ "polycheck/props/c15"
 	_ "polycheck/props/c16"
 )
